@@ -97,6 +97,12 @@ class LimitedRateLimiter(RateLimiter):
 
     async def take_tokens(self) -> int:
         while True:
+            if self.bucket == self.limit_bps:
+                # A full bucket is not refilled and `last_refill` is not
+                # updated: start counting from now, otherwise the time the
+                # bucket sat full is refunded on the next refill
+                self.last_refill = time.monotonic()
+
             is_empty = self.refill()
             if not is_empty:
                 self.bucket -= self.MIN_BUCKET_SIZE
